@@ -3,7 +3,7 @@ _C20_MAIN = "server"
 
 PROPS["C20"] = prop(
     "exploration",
-    "rapid round-trip + single-field sensitivity sweep over reflection-generated message trees; strict reference decoder for ids; rapid-generated histories on a running server (publishes, permission changes, reload and restart of the P2P topic) with the invariant that every frame shows a P2P topic under the other participant's id",
+    "rapid round-trip + single-field sensitivity sweep over reflection-generated message trees; strict reference decoder for ids; rapid-generated histories on a running server (publishes, permission changes, reload and restart of the P2P topic) with the invariant that every frame shows a P2P topic under the other participant's id; thorough tier: the same generators and oracles also run under Go's native coverage-guided fuzzer (rapid.MakeFuzz, 60 s per target, all cores)",
     "non-trivial = id strings that differ from a valid encoding in exactly one position (or only in the unused trailing bits), proper p2p pairs, "
     "grp/chn names, messages with >= 3 optional sub-structures present; distinct = distinct generated case by FNV-64 of its JSON",
     "Ids: all 64-bit values with boundary bias through every codec against an independent bit-level encoder/decoder; strings <= 30 bytes offered as ids and "
@@ -14,10 +14,10 @@ PROPS["C20"] = prop(
     "not define are listed in harness/c20 (c20NotCarried) and reported in the evidence; the transport differential over a live gRPC stream is not part of this unit set.",
     "5/C20", "types-pure + server-pure",
     [Unit("TestC20Uid", _C20_TYPES, quick=100000, thorough=2000000, shards_quick=2, shards_thorough=8),
-     Unit("TestC20UidText", _C20_TYPES, quick=100000, thorough=2000000, shards_quick=2, shards_thorough=8),
+     Unit("TestC20UidText", _C20_TYPES, quick=100000, thorough=2000000, shards_quick=2, shards_thorough=8, fuzz="FuzzC20UidText", fuzztime=60),
      Unit("TestC20UidText32", _C20_TYPES, quick=50000, thorough=1000000, shards_quick=1, shards_thorough=4),
-     Unit("TestC20P2P", _C20_TYPES, quick=100000, thorough=2000000, shards_quick=2, shards_thorough=8),
-     Unit("TestC20Names", _C20_TYPES, quick=100000, thorough=2000000, shards_quick=2, shards_thorough=8),
+     Unit("TestC20P2P", _C20_TYPES, quick=100000, thorough=2000000, shards_quick=2, shards_thorough=8, fuzz="FuzzC20P2P", fuzztime=60),
+     Unit("TestC20Names", _C20_TYPES, quick=100000, thorough=2000000, shards_quick=2, shards_thorough=8, fuzz="FuzzC20Names", fuzztime=60),
      Unit("TestC20UidGen", _C20_TYPES, quick=5000, thorough=100000, shards_quick=1, shards_thorough=4),
      Unit("TestC20StoreUid", _C20_MAIN, quick=20000, thorough=500000, shards_quick=1, shards_thorough=4),
      Unit("TestC20SweepAll", _C20_MAIN, rapid=False, shards_quick=1, shards_thorough=1, n_quick=3, n_thorough=40),
